@@ -1,5 +1,532 @@
 import ChemProofs.Model.Formula
 import ChemProofs.Spec.Grammar
+/-
+Property C05 — panic-freedom (totality) of the formula parser model.
+
+`parseFormula cc T s` (the Lean model of `FormulaParser::parse_formula_with_table_generic`)
+never produces the `.panic` outcome, for every character class `cc`, every table `T` and every
+text `s`.  In the model a panic has exactly two sources: a slice `&string[a..b]` with
+`¬(a ≤ b ∧ b ≤ len)`, and exhaustion of the recursion fuel of `parseA`.  Both are excluded:
+
+* `Inv p i` is an invariant of the twelve offsets of the parser state at character position `i`
+  (by cases on the state); `pstep_safe` shows that one loop iteration started in `Inv p i`
+  does not panic and re-establishes `Inv p' (i+1)`; `ploop_safe` lifts it to the loop and
+  `pfinish_safe` to the end-of-input match;
+* a group body is the slice `gs..ge` with `1 ≤ gs` and `ge < len`, hence at least two characters
+  shorter than its parent, so `len + 1` levels of fuel always suffice (`parseA_no_panic`), and
+  surplus fuel does not change the result (`parse_fuel`).
+
+Main theorems: `parse_no_panic`, `parseA_no_panic`, `parse_fuel`.
+-/
 namespace Chem
-theorem placeholder_C05 : True := trivial
+
+/-- weakest-precondition style predicate: `r` is not a panic, and if it is `ok a` then `P a` -/
+def Res.Safe {α} (r : Res α) (P : α → Prop) : Prop :=
+  match r with
+  | .ok a => P a
+  | .err => True
+  | .panic => False
+
+theorem Res.Safe.ne_panic {α} {r : Res α} {P : α → Prop} (h : r.Safe P) : r ≠ .panic := by
+  intro e; subst e; exact h
+
+theorem Res.Safe.bind {α β} {r : Res α} {f : α → Res β} {P : α → Prop} {Q : β → Prop}
+    (h : r.Safe P) (hf : ∀ a, P a → (f a).Safe Q) : (r.bind f).Safe Q := by
+  cases r with
+  | ok a => exact hf a h
+  | err => trivial
+  | panic => exact h.elim
+
+theorem Res.Safe.mono {α} {r : Res α} {P Q : α → Prop}
+    (h : r.Safe P) (hpq : ∀ a, P a → Q a) : r.Safe Q := by
+  cases r with
+  | ok a => exact hpq a h
+  | err => trivial
+  | panic => exact h.elim
+
+theorem Res.safe_of_ne_panic {α} {r : Res α} (h : r ≠ .panic) : r.Safe (fun _ => True) := by
+  cases r with
+  | ok a => trivial
+  | err => trivial
+  | panic => exact (h rfl).elim
+
+/-! ### the helpers -/
+
+theorem slice_safe (s : List Nat) (a b : Nat) (hab : a ≤ b) (hb : b ≤ s.length) :
+    (slice s a b).Safe (fun r => r.length = b - a) := by
+  unfold slice
+  rw [if_pos ⟨hab, hb⟩]
+  show ((s.take b).drop a).length = b - a
+  rw [List.length_drop, List.length_take, Nat.min_eq_left hb]
+
+theorem lookupElem_safe (T : Table) (s : List Nat) (p : PState)
+    (h1 : p.es ≤ p.ee) (h2 : p.ee ≤ s.length) :
+    (lookupElem T s p).Safe (fun r => r.2 = { p with es := 0, ee := 0 }) := by
+  unfold lookupElem
+  refine (slice_safe s _ _ h1 h2).bind ?_
+  intro sym _
+  cases T.find? sym with
+  | some e => exact rfl
+  | none => trivial
+
+theorem elemCount_safe (s : List Nat) (p : PState)
+    (h1 : p.cs ≤ p.ce) (h2 : p.ce ≤ s.length) :
+    (elemCount s p).Safe (fun r => r.2 = { p with cs := 0, ce := 0 }) := by
+  unfold elemCount
+  refine (slice_safe s _ _ h1 h2).bind ?_
+  intro ds _
+  cases parseI32 ds with
+  | some e => exact rfl
+  | none => trivial
+
+theorem groupCount_safe (s : List Nat) (p : PState)
+    (h1 : p.gcs ≤ p.gce) (h2 : p.gce ≤ s.length) :
+    (groupCount s p).Safe (fun r => r.2 = { p with gcs := 0, gce := 0 }) := by
+  unfold groupCount
+  refine (slice_safe s _ _ h1 h2).bind ?_
+  intro ds _
+  cases parseI32 ds with
+  | some e => exact rfl
+  | none => trivial
+
+theorem isoNumber_safe (s : List Nat) (p : PState)
+    (h1 : p.is ≤ p.ie) (h2 : p.ie ≤ s.length) :
+    (isoNumber s p).Safe (fun _ => True) := by
+  unfold isoNumber
+  refine (slice_safe s _ _ h1 h2).bind ?_
+  intro ds _
+  cases parseU16 ds with
+  | some e => trivial
+  | none => trivial
+
+theorem mkKey_safe (e : Elem) (iso : Nat) : (mkKey e iso).Safe (fun _ => True) := by
+  unfold mkKey
+  split <;> trivial
+
+/-- `afterTerm` either fails or moves to `element` (with `es := i`) or `group` (with `gs := i+1`),
+    leaving every other offset alone -/
+theorem afterTerm_safe (p : PState) (i c : Nat) (b : Bool) (u : Nat → Bool) :
+    (afterTerm p i c b u).Safe (fun q =>
+      (q.st = .element ∧ q.es = i ∧ q.is = p.is ∧ q.ie = p.ie) ∨
+      (q.st = .group ∧ q.gs = i + 1 ∧ q.is = p.is ∧ q.ie = p.ie)) := by
+  unfold afterTerm
+  split
+  · exact Or.inr ⟨rfl, rfl, rfl, rfl⟩
+  · split
+    · exact Or.inl ⟨rfl, rfl, rfl, rfl⟩
+    · trivial
+
+theorem flushElem_safe (T : Table) (s : List Nat) (p : PState) (acc : Ents)
+    (h1 : p.es ≤ p.ee) (h2 : p.ee ≤ s.length) :
+    (flushElem T s p acc).Safe (fun r => r.1 = { p with es := 0, ee := 0 }) := by
+  unfold flushElem
+  refine (lookupElem_safe T s p h1 h2).bind ?_
+  rintro ⟨e, q⟩ hq
+  exact hq
+
+theorem flushIso_safe (T : Table) (s : List Nat) (p : PState) (acc : Ents)
+    (h1 : p.es ≤ p.ee) (h2 : p.ee ≤ s.length) (h3 : p.is ≤ p.ie) (h4 : p.ie ≤ s.length) :
+    (flushIso T s p acc).Safe (fun r => r.1 = { p with es := 0, ee := 0, is := 0, ie := 0 }) := by
+  unfold flushIso
+  refine (lookupElem_safe T s p h1 h2).bind ?_
+  rintro ⟨e, q⟩ hq
+  have hq : q = { p with es := 0, ee := 0 } := hq
+  subst hq
+  refine (isoNumber_safe s _ h3 h4).bind ?_
+  intro iso _
+  refine (mkKey_safe e iso).bind ?_
+  intro k _
+  exact rfl
+
+theorem flushCount_safe (T : Table) (s : List Nat) (p : PState) (acc : Ents)
+    (h1 : p.es ≤ p.ee) (h2 : p.ee ≤ s.length) (h3 : p.cs ≤ p.ce) (h4 : p.ce ≤ s.length)
+    (h5 : p.ie = p.is ∨ (p.is ≤ p.ie ∧ p.ie ≤ s.length)) :
+    (flushCount T s p acc).Safe (fun r =>
+      r.1 = { p with es := 0, ee := 0, cs := 0, ce := 0, is := 0, ie := 0 }) := by
+  unfold flushCount
+  refine (elemCount_safe s p h3 h4).bind ?_
+  rintro ⟨n, q⟩ hq
+  have hq : q = { p with cs := 0, ce := 0 } := hq
+  subst hq
+  have hiso : (if ({ p with cs := 0, ce := 0 } : PState).ie != ({ p with cs := 0, ce := 0 } : PState).is
+      then isoNumber s { p with cs := 0, ce := 0 } else Res.ok 0).Safe (fun _ => True) := by
+    split
+    · rename_i hne
+      have hne : p.ie ≠ p.is := by simpa using hne
+      rcases h5 with h5 | ⟨h5, h6⟩
+      · exact (hne h5).elim
+      · exact isoNumber_safe s _ h5 h6
+    · trivial
+  refine hiso.bind ?_
+  intro iso _
+  refine (lookupElem_safe T s { p with cs := 0, ce := 0 } h1 h2).bind ?_
+  rintro ⟨e, q⟩ hq
+  have hq : q = { p with cs := 0, ce := 0, es := 0, ee := 0 } := hq
+  subst hq
+  refine (mkKey_safe e iso).bind ?_
+  intro k _
+  exact rfl
+
+/-! ### the offset invariant -/
+
+/-- the invariant of the parser state before the character at position `i`
+    (`i = s.length` after the loop) -/
+def Inv (p : PState) (i : Nat) : Prop :=
+  match p.st with
+  | .new => p.ie = p.is
+  | .element => p.es ≤ i ∧ p.ie = p.is
+  | .isotope => p.es ≤ p.ee ∧ p.ee ≤ i ∧ p.is ≤ i
+  | .isotopeToCount => p.es ≤ p.ee ∧ p.ee ≤ i ∧ p.is ≤ p.ie ∧ p.ie ≤ i
+  | .count => p.es ≤ p.ee ∧ p.ee ≤ i ∧ p.cs ≤ i ∧ (p.ie = p.is ∨ (p.is ≤ p.ie ∧ p.ie ≤ i))
+  | .group => 1 ≤ p.gs ∧ p.gs ≤ i ∧ p.ie = p.is
+  | .groupToGroupCount => 1 ≤ p.gs ∧ p.gs ≤ p.ge ∧ p.ge < i ∧ p.ie = p.is
+  | .groupCount => 1 ≤ p.gs ∧ p.gs ≤ p.ge ∧ p.ge < i ∧ p.gcs ≤ i ∧ p.ie = p.is
+
+theorem inv_init : Inv {} 0 := rfl
+
+/-- what `afterTerm` guarantees is enough for the invariant at the next position -/
+theorem inv_of_afterTerm {p q : PState} {i : Nat} (hp : p.ie = p.is)
+    (h : (q.st = .element ∧ q.es = i ∧ q.is = p.is ∧ q.ie = p.ie) ∨
+      (q.st = .group ∧ q.gs = i + 1 ∧ q.is = p.is ∧ q.ie = p.ie)) : Inv q (i + 1) := by
+  unfold Inv
+  rcases h with ⟨h1, h2, h3, h4⟩ | ⟨h1, h2, h3, h4⟩
+  · rw [h1]; dsimp only; omega
+  · rw [h1]; dsimp only; omega
+
+/-- the recursive parser does not panic on anything short enough to be a group body of `s` -/
+def SubOK (sub : List Nat → Res Ents) (s : List Nat) : Prop :=
+  ∀ b : List Nat, b.length + 2 ≤ s.length → sub b ≠ .panic
+
+theorem body_safe (sub : List Nat → Res Ents) (s : List Nat) (hsub : SubOK sub s)
+    (gs ge : Nat) (h1 : 1 ≤ gs) (h2 : gs ≤ ge) (h3 : ge < s.length) {β} (f : Ents → Res β)
+    (Q : β → Prop) (hf : ∀ g, (f g).Safe Q) :
+    ((slice s gs ge).bind fun body => (sub body).bind f).Safe Q := by
+  refine (slice_safe s gs ge h2 (by omega)).bind ?_
+  intro body hb
+  have hb : body.length = ge - gs := hb
+  refine (Res.safe_of_ne_panic (hsub body (by omega))).bind ?_
+  intro g _
+  exact hf g
+
+/-! ### one loop iteration -/
+
+theorem Res.Safe.ok_intro {α} {a : α} {P : α → Prop} (h : P a) : (Res.ok a).Safe P := h
+
+/-- close a goal `(Res.ok (q, acc)).Safe (fun r => Inv r.1 j)` for a literal state `q` -/
+local macro "inv_ok" : tactic =>
+  `(tactic| (refine Res.Safe.ok_intro ?_; unfold Inv; dsimp only; omega))
+
+theorem pstep_safe (cc : CharClass) (T : Table) (sub : List Nat → Res Ents) (s : List Nat)
+    (p : PState) (acc : Ents) (i c : Nat)
+    (hsub : SubOK sub s) (hinv : Inv p i) (hi : i < s.length) :
+    (pstep cc T sub s p acc i c).Safe (fun r => Inv r.1 (i + 1)) := by
+  obtain ⟨es, ee, is, ie, cs, ce, paren, gs, ge, gcs, gce, st⟩ := p
+  cases st <;> unfold Inv at hinv <;> dsimp only at hinv <;> unfold pstep <;> dsimp only
+  case new =>
+    split
+    · inv_ok
+    · split
+      · inv_ok
+      · trivial
+  case group =>
+    split
+    · split
+      · inv_ok
+      · inv_ok
+    · split
+      · inv_ok
+      · inv_ok
+  case element =>
+    split
+    · split
+      · refine (flushElem_safe T s _ acc (by dsimp only; omega) (by dsimp only; omega)).bind ?_
+        rintro ⟨q, acc'⟩ hq
+        have hq : q = _ := hq
+        subst hq
+        inv_ok
+      · inv_ok
+    · split
+      · inv_ok
+      · split
+        · inv_ok
+        · split
+          · refine (flushElem_safe T s _ acc (by dsimp only; omega) (by dsimp only; omega)).bind ?_
+            rintro ⟨q, acc'⟩ hq
+            have hq : q = _ := hq
+            subst hq
+            inv_ok
+          · inv_ok
+  case isotope =>
+    split
+    · inv_ok
+    · split
+      · trivial
+      · inv_ok
+  case count =>
+    split
+    · refine (flushCount_safe T s _ acc (by dsimp only; omega) (by dsimp only; omega)
+        (by dsimp only; omega) (by dsimp only; omega) (by dsimp only; omega)).bind ?_
+      rintro ⟨q, acc'⟩ hq
+      have hq : q = _ := hq
+      subst hq
+      refine (afterTerm_safe _ i c true isUpperStart).bind ?_
+      intro q hq
+      exact inv_of_afterTerm rfl hq
+    · inv_ok
+  case isotopeToCount =>
+    split
+    · inv_ok
+    · refine (flushIso_safe T s _ acc (by dsimp only; omega) (by dsimp only; omega)
+        (by dsimp only; omega) (by dsimp only; omega)).bind ?_
+      rintro ⟨q, acc'⟩ hq
+      have hq : q = _ := hq
+      subst hq
+      refine (afterTerm_safe _ i c false isAsciiUpper).bind ?_
+      intro q hq
+      exact inv_of_afterTerm rfl hq
+  case groupToGroupCount =>
+    split
+    · refine body_safe sub s hsub _ _ hinv.1 hinv.2.1 (by omega) _ _ ?_
+      intro g
+      refine (afterTerm_safe _ i c true isUpperStart).bind ?_
+      intro q hq
+      exact inv_of_afterTerm (by dsimp only; omega) hq
+    · inv_ok
+  case groupCount =>
+    split
+    · refine body_safe sub s hsub _ _ hinv.1 hinv.2.1 (by omega) _ _ ?_
+      intro g
+      refine (groupCount_safe s _ (by dsimp only; omega) (by dsimp only; omega)).bind ?_
+      rintro ⟨n, q⟩ hq
+      have hq : q = _ := hq
+      subst hq
+      refine (afterTerm_safe _ i c true isUpperStart).bind ?_
+      intro q hq
+      exact inv_of_afterTerm (by dsimp only; omega) hq
+    · inv_ok
+
+/-! ### the loop and the end-of-input match -/
+
+theorem ploop_safe (cc : CharClass) (T : Table) (sub : List Nat → Res Ents) (s : List Nat)
+    (hsub : SubOK sub s) :
+    ∀ (rest : List Nat) (i : Nat) (p : PState) (acc : Ents), Inv p i → i + rest.length = s.length →
+      (ploop cc T sub s rest i p acc).Safe (fun r => Inv r.1 s.length) := by
+  intro rest
+  induction rest with
+  | nil =>
+    intro i p acc hinv hlen
+    have : i = s.length := by simpa using hlen
+    subst this
+    exact hinv
+  | cons c rest ih =>
+    intro i p acc hinv hlen
+    have hlen' : i + (rest.length + 1) = s.length := by simpa using hlen
+    unfold ploop
+    refine (pstep_safe cc T sub s p acc i c hsub hinv (by omega)).bind ?_
+    rintro ⟨q, acc'⟩ hq
+    exact ih (i + 1) q acc' hq (by omega)
+
+theorem pfinish_safe (T : Table) (sub : List Nat → Res Ents) (s : List Nat)
+    (p : PState) (acc : Ents) (hsub : SubOK sub s) (hinv : Inv p s.length) :
+    (pfinish T sub s p acc).Safe (fun _ => True) := by
+  obtain ⟨es, ee, is, ie, cs, ce, paren, gs, ge, gcs, gce, st⟩ := p
+  cases st <;> unfold Inv at hinv <;> dsimp only at hinv <;> unfold pfinish <;> dsimp only
+  case new => trivial
+  case group => trivial
+  case isotope => trivial
+  case element =>
+    refine (flushElem_safe T s _ acc (by dsimp only; omega) (by dsimp only; omega)).bind ?_
+    rintro ⟨q, acc'⟩ _
+    trivial
+  case count =>
+    refine (flushCount_safe T s _ acc (by dsimp only; omega) (by dsimp only; omega)
+      (by dsimp only; omega) (by dsimp only; omega) (by dsimp only; omega)).bind ?_
+    rintro ⟨q, acc'⟩ _
+    trivial
+  case isotopeToCount =>
+    refine (flushIso_safe T s _ acc (by dsimp only; omega) (by dsimp only; omega)
+      (by dsimp only; omega) (by dsimp only; omega)).bind ?_
+    rintro ⟨q, acc'⟩ _
+    trivial
+  case groupToGroupCount =>
+    refine body_safe sub s hsub _ _ hinv.1 hinv.2.1 (by omega) _ _ ?_
+    intro g
+    trivial
+  case groupCount =>
+    refine body_safe sub s hsub _ _ hinv.1 hinv.2.1 (by omega) _ _ ?_
+    intro g
+    refine (groupCount_safe s _ (by dsimp only; omega) (by dsimp only; omega)).bind ?_
+    rintro ⟨n, q⟩ _
+    trivial
+
+/-! ### the recursion: enough fuel -/
+
+/-- one level of `parseA` is panic-free if the level below is panic-free on every possible
+    group body -/
+theorem parseA_step_safe (cc : CharClass) (T : Table) (sub : List Nat → Res Ents) (s : List Nat)
+    (hsub : SubOK sub s) :
+    ((ploop cc T sub s s 0 {} []).bind fun (p, acc) => pfinish T sub s p acc).Safe
+      (fun _ => True) := by
+  refine (ploop_safe cc T sub s hsub s 0 {} [] inv_init (by omega)).bind ?_
+  rintro ⟨p, acc⟩ hp
+  exact pfinish_safe T sub s p acc hsub hp
+
+/-- with more fuel than characters the parser never panics: neither a slice out of range nor
+    fuel exhaustion (a nested body is at least two characters shorter than its parent) -/
+theorem parseA_no_panic (cc : CharClass) (T : Table) :
+    ∀ (fuel : Nat) (s : List Nat), s.length < fuel → parseA cc T fuel s ≠ .panic := by
+  intro fuel
+  induction fuel with
+  | zero => intro s h; omega
+  | succ fuel ih =>
+    intro s h
+    unfold parseA
+    refine (parseA_step_safe cc T (parseA cc T fuel) s ?_).ne_panic
+    intro b hb
+    exact ih b (by omega)
+
+/-- **C05**: the formula parser never panics, whatever the character class, table and text -/
+theorem parse_no_panic (cc : CharClass) (T : Table) (s : List Nat) : parseFormula cc T s ≠ .panic :=
+  parseA_no_panic cc T (s.length + 1) s (Nat.lt_succ_self _)
+
+/-- the same statement in positive form: the outcome is a value or an error value -/
+theorem parse_ok_or_err (cc : CharClass) (T : Table) (s : List Nat) :
+    (∃ e, parseFormula cc T s = .ok e) ∨ parseFormula cc T s = .err := by
+  have h := parse_no_panic cc T s
+  cases hr : parseFormula cc T s with
+  | ok e => exact Or.inl ⟨e, rfl⟩
+  | err => exact Or.inr rfl
+  | panic => exact (h hr).elim
+
+/-! ### surplus fuel is not observable -/
+
+theorem Res.bind_congr_safe {α β} {r : Res α} {P : α → Prop} {f f' : α → Res β}
+    (h : r.Safe P) (hf : ∀ a, P a → f a = f' a) : r.bind f = r.bind f' := by
+  cases r with
+  | ok a => exact hf a h
+  | err => rfl
+  | panic => rfl
+
+/-- two recursive parsers that agree on everything short enough to be a group body of `s` -/
+def SubAgree (sub sub' : List Nat → Res Ents) (s : List Nat) : Prop :=
+  ∀ b : List Nat, b.length + 2 ≤ s.length → sub b = sub' b
+
+theorem body_congr (sub sub' : List Nat → Res Ents) (s : List Nat) (hag : SubAgree sub sub' s)
+    (gs ge : Nat) (h1 : 1 ≤ gs) (h2 : gs ≤ ge) (h3 : ge < s.length) {β} (f : Ents → Res β) :
+    ((slice s gs ge).bind fun body => (sub body).bind f) =
+      ((slice s gs ge).bind fun body => (sub' body).bind f) := by
+  refine Res.bind_congr_safe (slice_safe s gs ge h2 (by omega)) ?_
+  intro body hb
+  have hb : body.length = ge - gs := hb
+  rw [hag body (by omega)]
+
+theorem pstep_congr (cc : CharClass) (T : Table) (sub sub' : List Nat → Res Ents) (s : List Nat)
+    (p : PState) (acc : Ents) (i c : Nat)
+    (hag : SubAgree sub sub' s) (hinv : Inv p i) (hi : i < s.length) :
+    pstep cc T sub s p acc i c = pstep cc T sub' s p acc i c := by
+  obtain ⟨es, ee, is, ie, cs, ce, paren, gs, ge, gcs, gce, st⟩ := p
+  cases st <;> unfold Inv at hinv <;> dsimp only at hinv
+  case groupToGroupCount =>
+    unfold pstep; dsimp only
+    split
+    · exact body_congr sub sub' s hag _ _ hinv.1 hinv.2.1 (by omega) _
+    · rfl
+  case groupCount =>
+    unfold pstep; dsimp only
+    split
+    · exact body_congr sub sub' s hag _ _ hinv.1 hinv.2.1 (by omega) _
+    · rfl
+  all_goals rfl
+
+theorem pfinish_congr (T : Table) (sub sub' : List Nat → Res Ents) (s : List Nat)
+    (p : PState) (acc : Ents) (hag : SubAgree sub sub' s) (hinv : Inv p s.length) :
+    pfinish T sub s p acc = pfinish T sub' s p acc := by
+  obtain ⟨es, ee, is, ie, cs, ce, paren, gs, ge, gcs, gce, st⟩ := p
+  cases st <;> unfold Inv at hinv <;> dsimp only at hinv
+  case groupToGroupCount =>
+    unfold pfinish; dsimp only
+    exact body_congr sub sub' s hag _ _ hinv.1 hinv.2.1 (by omega) _
+  case groupCount =>
+    unfold pfinish; dsimp only
+    exact body_congr sub sub' s hag _ _ hinv.1 hinv.2.1 (by omega) _
+  all_goals rfl
+
+theorem ploop_congr (cc : CharClass) (T : Table) (sub sub' : List Nat → Res Ents) (s : List Nat)
+    (hag : SubAgree sub sub' s) (hsub : SubOK sub s) :
+    ∀ (rest : List Nat) (i : Nat) (p : PState) (acc : Ents), Inv p i → i + rest.length = s.length →
+      ploop cc T sub s rest i p acc = ploop cc T sub' s rest i p acc := by
+  intro rest
+  induction rest with
+  | nil => intro i p acc _ _; rfl
+  | cons c rest ih =>
+    intro i p acc hinv hlen
+    have hlen' : i + (rest.length + 1) = s.length := by simpa using hlen
+    unfold ploop
+    rw [← pstep_congr cc T sub sub' s p acc i c hag hinv (by omega)]
+    refine Res.bind_congr_safe (pstep_safe cc T sub s p acc i c hsub hinv (by omega)) ?_
+    rintro ⟨q, acc'⟩ hq
+    exact ih (i + 1) q acc' hq (by omega)
+
+/-- any two fuel values above the length of the text give the same result -/
+theorem parseA_fuel_irrel (cc : CharClass) (T : Table) :
+    ∀ (n m : Nat) (s : List Nat), s.length < n → s.length < m →
+      parseA cc T n s = parseA cc T m s := by
+  intro n
+  induction n with
+  | zero => intro m s h; omega
+  | succ n ih =>
+    intro m s hn hm
+    cases m with
+    | zero => omega
+    | succ m =>
+      have hag : SubAgree (parseA cc T n) (parseA cc T m) s := by
+        intro b hb
+        exact ih m b (by omega) (by omega)
+      have hsub : SubOK (parseA cc T n) s := by
+        intro b hb
+        exact parseA_no_panic cc T n b (by omega)
+      unfold parseA
+      rw [← ploop_congr cc T _ _ s hag hsub s 0 {} [] inv_init (by omega)]
+      refine Res.bind_congr_safe (ploop_safe cc T _ s hsub s 0 {} [] inv_init (by omega)) ?_
+      rintro ⟨p, acc⟩ hp
+      exact pfinish_congr T _ _ s p acc hag hp
+
+/-- the result does not depend on surplus fuel -/
+theorem parse_fuel (cc : CharClass) (T : Table) (n : Nat) (s : List Nat) (h : s.length < n) :
+    parseA cc T n s = parseFormula cc T s :=
+  parseA_fuel_irrel cc T n (s.length + 1) s h (Nat.lt_succ_self _)
+
+/-! ### non-vacuity: the parser computes, succeeds and fails on concrete inputs -/
+
+/-- ASCII-only character class -/
+def c05cc : CharClass := ⟨isAsciiAlpha, isAsciiDigit, isAsciiUpper⟩
+
+/-- a three-element table: C (12, 13), H (1), O (16) -/
+def c05T : Table :=
+  [ { tkey := [67], sym := [67], isos := [⟨12, 12000000, 989300, 6, 0⟩, ⟨13, 13003355, 10700, 7, 1⟩],
+      mostIso := 12, mostMass := 12000000, minShift := 0, maxShift := 1, elemNum := 6 },
+    { tkey := [72], sym := [72], isos := [⟨1, 1007825, 999885, 0, 0⟩],
+      mostIso := 1, mostMass := 1007825, minShift := 0, maxShift := 0, elemNum := 1 },
+    { tkey := [79], sym := [79], isos := [⟨16, 15994915, 997570, 8, 0⟩],
+      mostIso := 16, mostMass := 15994915, minShift := 0, maxShift := 0, elemNum := 8 } ]
+
+/-- `C[13]H3(OH)2` -/
+example : parseFormula c05cc c05T [67, 91, 49, 51, 93, 72, 51, 40, 79, 72, 41, 50] =
+    .ok [(([67], 13), 1), (([72], 0), 5), (([79], 0), 2)] := by decide
+
+/-- `C((O)2H)3` (nested groups: the recursion and its fuel are exercised) -/
+example : parseFormula c05cc c05T [67, 40, 40, 79, 41, 50, 72, 41, 51] =
+    .ok [(([67], 0), 1), (([79], 0), 6), (([72], 0), 3)] := by decide
+
+/-- `C[14]` (carbon has no isotope 14 in this table), `X`, `(C`, `C)(` are error values -/
+example : parseFormula c05cc c05T [67, 91, 49, 52, 93] = .err := by decide
+example : parseFormula c05cc c05T [88] = .err := by decide
+example : parseFormula c05cc c05T [40, 67] = .err := by decide
+example : parseFormula c05cc c05T [67, 41, 40] = .err := by decide
+
+/-- the `panic` outcome is reachable in the model (so `parse_no_panic` is not vacuous):
+    a slice with bad offsets, and a nested group without fuel -/
+example : slice [67, 72] 2 1 = .panic := by decide
+example : parseA c05cc c05T 1 [40, 67, 41] = .panic := by decide
+
 end Chem
